@@ -79,6 +79,10 @@ type Gen struct {
 	exits    []exitPoint
 	uses     []*Axiom
 	noDecl   map[string]bool
+	alias    map[string][]string // renamed locals (alias.go)
+	inl      *inlineFrame       // set while a helper's body is executed in place of a call (inline.go)
+	inlineDepth int
+	inlineStack []*ssa.Function
 }
 
 type exitPoint struct {
@@ -171,6 +175,24 @@ func (g *Gen) assertExpr(st *State, env *Env, kind, detail string, e *E, src str
 		}()
 		t = env.tr(e).S
 	}()
+	if msg != "" && e.K == "bin" && e.S == "==>" && len(e.A) == 2 {
+		// an implication whose consequent cannot be evaluated here (it names something that
+		// exists only where the antecedent holds, e.g. the variables captured by a returned
+		// closure on the path that returns nil): the obligation is that the antecedent is
+		// false on this path.  Only for asserted clauses, never for assumed ones.
+		func() {
+			defer func() {
+				if r := recover(); r != nil {
+					if _, ok := r.(specErr); ok {
+						return
+					}
+					panic(r)
+				}
+			}()
+			a := env.tr(e.A[0]).S
+			t, msg = "(not "+a+")", ""
+		}()
+	}
 	if msg != "" {
 		g.kindOrd[kind+"/"+detail]++
 		name := fmt.Sprintf("%s/%s/%s#%d", g.key, kind, detail, g.kindOrd[kind+"/"+detail])
@@ -268,7 +290,7 @@ func (g *Gen) newRef(st *State) string {
 }
 
 func (g *Gen) env(st *State, vars map[string]Val) *Env {
-	return &Env{m: g.m, vars: vars, st: st, old: g.entry, tpkg: g.fn.Pkg.Pkg, spkg: g.fn.Pkg, hget: g.heapGet, gconst: g.constGlobal}
+	return &Env{m: g.m, vars: vars, st: st, old: g.entry, tpkg: g.fn.Pkg.Pkg, spkg: g.fn.Pkg, hget: g.heapGet, gconst: g.constGlobal, alias: g.alias}
 }
 
 // ---- type constraints ----
@@ -607,8 +629,33 @@ func (g *Gen) loopMods(li *loopInfo) (comps map[string]bool, dirty map[string]bo
 	// the loop changes the ghost (over-approximated: any clause for a callee called in the loop)
 	if g.c != nil {
 		inLoop := map[string]bool{}
+		var instrs []ssa.Instruction
+		var collect func(f *ssa.Function, depth int)
+		collect = func(f *ssa.Function, depth int) {
+			for _, hb := range f.Blocks {
+				for _, hin := range hb.Instrs {
+					instrs = append(instrs, hin)
+					if ci, ok := hin.(ssa.CallInstruction); ok && depth < maxInlineDepth {
+						if hf, ok := ci.Common().Value.(*ssa.Function); ok && g.calleeContract(ci.Common()) == nil && g.inlinable(hf) {
+							collect(hf, depth+1)
+						}
+					}
+				}
+			}
+		}
 		for b := range li.blocks {
 			for _, in := range b.Instrs {
+				instrs = append(instrs, in)
+				// calls made by a helper that is executed in place count as calls in the loop
+				if ci, ok := in.(ssa.CallInstruction); ok {
+					if hf, ok := ci.Common().Value.(*ssa.Function); ok && g.calleeContract(ci.Common()) == nil && g.inlinable(hf) {
+						collect(hf, 1)
+					}
+				}
+			}
+		}
+		{
+			for _, in := range instrs {
 				switch x := in.(type) {
 				case ssa.CallInstruction:
 					cc := x.Common()
@@ -677,8 +724,22 @@ func (g *Gen) loopMods(li *loopInfo) (comps map[string]bool, dirty map[string]bo
 			}
 		}
 	}
-	for b := range li.blocks {
-		for _, in := range b.Instrs {
+	// a helper that is executed in place of its call (inline.go) contributes its own effects;
+	// what it writes through its parameters may be an object that existed before the loop
+	inHelper := 0
+	var scan func(in ssa.Instruction)
+	scanHelper := func(f *ssa.Function) {
+		inHelper++
+		for _, hb := range f.Blocks {
+			for _, hin := range hb.Instrs {
+				scan(hin)
+			}
+		}
+		inHelper--
+	}
+	fv0 := freshVal
+	freshVal = func(v ssa.Value) bool { return inHelper == 0 && fv0(v) }
+	scan = func(in ssa.Instruction) {
 			switch x := in.(type) {
 			case *ssa.Store:
 				tmp := map[string]bool{}
@@ -727,15 +788,21 @@ func (g *Gen) loopMods(li *loopInfo) (comps map[string]bool, dirty map[string]bo
 						d, v := mapComps(cc.Args[0].Type())
 						mark(map[string]bool{d: true, v: true}, false)
 					}
-					continue
+					return
 				}
 				ct := g.calleeContract(cc)
 				if ct != nil && ct.NoReturn {
-					continue // control never comes back from this call: no effect on later iterations
+					return // control never comes back from this call: no effect on later iterations
+				}
+				if ct == nil && inHelper < maxInlineDepth {
+					if f, ok := cc.Value.(*ssa.Function); ok && g.inlinable(f) {
+						scanHelper(f)
+						return
+					}
 				}
 				if ct == nil || (!ct.ModSet) || ct.ModAll {
 					all = true
-					continue
+					return
 				}
 				if !ct.Pure {
 					comps["alloc"] = true
@@ -748,6 +815,10 @@ func (g *Gen) loopMods(li *loopInfo) (comps map[string]bool, dirty map[string]bo
 					mark(tmp, strings.HasPrefix(mcomp, "new "))
 				}
 			}
+	}
+	for b := range li.blocks {
+		for _, in := range b.Instrs {
+			scan(in)
 		}
 	}
 	return
